@@ -104,7 +104,9 @@ def main():
           'evidence_file': f'evidence/{pid}.json',
           'replay_cmd_template': f'./check {pid} --replay {{path}}',
           'engine': 'hypothesis-runner',
-          'level_claimed': {'category': 'exploration', 'text': c['text'],
+          'level_claimed': {'category': 'exploration',
+                            'text': c['text'] + ' Generator and clause additions made after the sensitivity rounds are '
+                                    'listed in the "rule" field of the evidence file and in DESIGN.md sections 13-16.',
                             'design_ref': f'DESIGN.md section 6, {pid}'},
           'level_note': c['note'],
           'technique': c['technique'],
